@@ -17,17 +17,17 @@ SPEC = dict(
                  'a hard send error in the write-ready path drops the unsent backlog and closes the client (onClosed): only bytes reported as handed to the OS must reach the peer',
                  'a peer that closes while its client is suspended without backlog is not generated (the loop then spins on EPOLLHUP without dispatching; not a statement of C13)'],
     technique='libc interposition (send/recv/epoll_wait/clock_gettime), virtual time, reference byte-stream model, independent poll() oracle',
-    exhaustive={Q: True, T: True},
+    exhaustive={Q: False, T: False},   # the outcome-sequence x size-class sub-space (plan-exh, plan-err) is enumerated completely; sizes, venues and scripts are sampled
     jobs=[
         job('plan-exh', 'h_server_write', 'plan-exh', cases=-1, scale={Q: 3, T: 5}, procs=16, sources=SRC),
         job('plan-err', 'h_server_write', 'plan-err', cases=-1, scale={Q: 3, T: 5}, procs=16, sources=SRC),
         job('rand', 'h_server_write', 'rand', cases={Q: 800, T: 14000}, procs=16, sources=SRC),
         job('kernel', 'h_server_write', 'kernel', cases={Q: 160, T: 2400}, procs=16, sources=SRC),
     ],
-    floors={Q: dict(cases=1400, send_calls=5000, send_partial=1000, send_eagain=500, send_error=90, backlog_drained=500, onWrite=500, writes_append_path=100,
+    floors={Q: dict(cases=1400, plans_fully_consumed=558, send_calls=5000, send_partial=1000, send_eagain=500, send_error=90, backlog_drained=500, onWrite=500, writes_append_path=100,
                     postponed_checks=1000, backlog_size_checks=3000, peer_bytes_verified=10000000, independent_poll_checks=1000, streams_verified_end_to_end=1400,
                     suspend_while_event_selected=5, resume_with_pending_data=5, **{'set:send_outcomes': 12, 'set:write_venues': 5}),
-            T: dict(cases=30000, send_calls=100000, send_partial=20000, send_eagain=10000, send_error=2000, backlog_drained=10000, onWrite=10000, writes_append_path=2000,
+            T: dict(cases=30000, plans_fully_consumed=14058, send_calls=100000, send_partial=20000, send_eagain=10000, send_error=2000, backlog_drained=10000, onWrite=10000, writes_append_path=2000,
                     postponed_checks=20000, backlog_size_checks=60000, peer_bytes_verified=200000000, independent_poll_checks=20000, streams_verified_end_to_end=30000,
                     suspend_while_event_selected=100, resume_with_pending_data=100, **{'set:send_outcomes': 12, 'set:write_venues': 5})},
 )
